@@ -40,23 +40,30 @@ fn run_case(c: &Case) -> Result<String, (String, String)> {
     config.min_refresh = c.min.map(Duration::from_secs);
     config.enable_aspa = true;
     let history = SharedHistory::from_config(&config);
-    // initial run
-    data::install(&history, &config, &data::history_sets()[1]);
+    // The initial run already serves the same payload, with a far expiry
+    // when the run under test carries one: the regular run then changes
+    // nothing but the expiry.
+    let tal = rpki::repository::tal::TalInfo::from_name("verif".into()).into_arc();
+    let base = Time::now();
+    let make = |expiry_abs: Option<i64>| {
+        let report = routinator::payload::ValidationReport::new(&config);
+        let mut metrics = routinator::metrics::Metrics::new();
+        metrics.tals.push(routinator::metrics::TalMetrics::new(tal.clone()));
+        if let Some(e) = expiry_abs {
+            let not_after = Time::new(chrono::DateTime::from_timestamp(e, 0).unwrap());
+            report.verif_push_point(
+                tal.clone(), not_after, vec![data::origin_universe()[2]], Vec::new(),
+                Vec::<(rpki::resources::Asn, Vec<rpki::resources::Asn>)>::new()
+            );
+        }
+        (report, metrics)
+    };
+    let expiry_abs = c.expiry.map(|e| base.timestamp() + e);
+    let (report, metrics) = make(expiry_abs.map(|_| base.timestamp() + 1_000_000));
+    history.update(report, &data::exceptions_for(&data::history_sets()[1]), metrics);
     history.mark_update_done();
     // the regular run with the data set under test
-    let report = routinator::payload::ValidationReport::new(&config);
-    let mut metrics = routinator::metrics::Metrics::new();
-    let tal = rpki::repository::tal::TalInfo::from_name("verif".into()).into_arc();
-    metrics.tals.push(routinator::metrics::TalMetrics::new(tal.clone()));
-    let base = Time::now();
-    let expiry_abs = c.expiry.map(|e| base.timestamp() + e);
-    if let Some(e) = expiry_abs {
-        let not_after = Time::new(chrono::DateTime::from_timestamp(e, 0).unwrap());
-        report.verif_push_point(
-            tal, not_after, vec![data::origin_universe()[2]], Vec::new(),
-            Vec::<(rpki::resources::Asn, Vec<rpki::resources::Asn>)>::new()
-        );
-    }
+    let (report, metrics) = make(expiry_abs);
     history.mark_update_start();
     history.update(report, &data::exceptions_for(&data::history_sets()[1]), metrics);
     let t0 = unix(SystemTime::now());
@@ -99,8 +106,9 @@ pub fn run(ctx: &Ctx) -> Report {
     let cases = cases(ctx.tier.thorough());
     rep.rule = "full grid refresh x min-refresh (unset and set) x expiry \
         of the installed data set (none, already past, now, and values \
-        below / at / above min-refresh and refresh); an initial run, then \
-        a regular run installing the data set through \
+        below / at / above min-refresh and refresh); an initial run \
+        serving the same payload with a far expiry, then a regular run \
+        installing the data set (same payload, the expiry under test) through \
         SharedHistory::update, mark_update_done, refresh_wait; oracle \
         (bracketing wall clocks): wait >= min-refresh (or refresh), wait \
         <= max(refresh, min-refresh), and with min-refresh set wait == \
